@@ -114,18 +114,13 @@ pub fn c16_origin_abort<N: Nd>(n: &mut N, kind: u8, ck: u8) {
         calls += 1;
         calls == stop + 1
     });
-    // reference number of batches for this origin
-    let mut calls2 = 0u8;
-    b.generate_moves_for(sq(f).bitboard(), |_pm| {
-        calls2 += 1;
-        false
-    });
-    if calls2 > stop {
-        assert!(r && calls == stop + 1);
-    } else {
-        assert!(!r && calls == calls2);
-    }
-    vcover!(calls2 == 2 && stop == 0, "@pawn_c[01] abort at the first of two batches");
+    // the listener answers true exactly at call index `stop`:
+    //  - generation returns true exactly when that call happened, and no call follows it;
+    //  - it returns false exactly when the listener never answered true.
+    assert!(calls <= stop + 1);
+    assert!(r == (calls == stop + 1));
+    vcover!(r && stop == 1, "@pawn_c[01] abort at the second of two batches");
+    vcover!(!r && calls == 1, "@(pawn|knight|bishop|rook|queen)_c[01]|king one batch, no abort");
 }
 
 // ------------------------------------------------------------------ C04
@@ -240,6 +235,85 @@ pub fn c13_ep_effect<N: Nd>(n: &mut N, stm: u8, variant: u8) {
     vcover!(!want, "a legal en passant capture exists");
 }
 
+/// Behavioural key of the feature "piece `kind` of colour `c` on square `s`"
+/// (all symbolic): the hash of an empty board after the real `xor_square`.
+fn piece_key(c: usize, kind: usize, s: u8) -> u64 {
+    let mut e = Board::verif_from_raw([0; 6], [0; 2], Color::White, [CastleRights::EMPTY; 2], None, 0, 0, 0, 0, 1);
+    e.verif_xor_square(piece(kind as u8), color(c as u8), sq(s));
+    e.hash()
+}
+
+fn castle_key(c: usize, w: usize, f: u8) -> u64 {
+    let mut e = Board::verif_from_raw([0; 6], [0; 2], Color::White, [CastleRights::EMPTY; 2], None, 0, 0, 0, 0, 1);
+    e.verif_set_castle_right(color(c as u8), w == 0, Some(file(f)));
+    e.hash()
+}
+
+fn side_key() -> u64 {
+    let mut e = Board::verif_from_raw([0; 6], [0; 2], Color::White, [CastleRights::EMPTY; 2], None, 0, 0, 0, 0, 1);
+    e.verif_toggle_side_to_move();
+    e.hash()
+}
+
+/// XOR of the behavioural keys of the features in which `a` and `b` differ,
+/// enumerated sparsely: at most four squares change in one move (asserted).
+pub fn sparse_delta(a: &Pos, b: &Pos) -> u64 {
+    let mut diff = 0u64;
+    let mut i = 0;
+    while i < 6 {
+        diff |= (a.pc[i] & a.occ()) ^ (b.pc[i] & b.occ());
+        i += 1;
+    }
+    diff |= (a.col[0] ^ b.col[0]) | (a.col[1] ^ b.col[1]);
+    assert!(diff.count_ones() <= 4);
+    let mut h = 0u64;
+    let mut rest = diff;
+    let mut k = 0;
+    while k < 4 {
+        if rest != 0 {
+            let s = rest.trailing_zeros() as u8;
+            let sb = bit(s);
+            rest &= rest - 1;
+            if a.occ() & sb != 0 {
+                h ^= piece_key((a.col[1] & sb != 0) as usize, refm::kind_at(a, sb), s);
+            }
+            if b.occ() & sb != 0 {
+                h ^= piece_key((b.col[1] & sb != 0) as usize, refm::kind_at(b, sb), s);
+            }
+        }
+        k += 1;
+    }
+    let mut c = 0;
+    while c < 2 {
+        let mut w = 0;
+        while w < 2 {
+            let (fa, fb) = (a.castle[c][w], b.castle[c][w]);
+            if fa != fb {
+                if fa < 8 {
+                    h ^= castle_key(c, w, fa);
+                }
+                if fb < 8 {
+                    h ^= castle_key(c, w, fb);
+                }
+            }
+            w += 1;
+        }
+        c += 1;
+    }
+    if a.ep != b.ep {
+        if a.ep < 8 {
+            h ^= ep_key(a.ep);
+        }
+        if b.ep < 8 {
+            h ^= ep_key(b.ep);
+        }
+    }
+    if a.stm != b.stm {
+        h ^= side_key();
+    }
+    h
+}
+
 /// The behavioural en-passant key of a (symbolic) file.
 pub fn ep_key(f: u8) -> u64 {
     let mut k = 0u64;
@@ -308,11 +382,8 @@ pub fn step_play<N: Nd>(n: &mut N, cube: u8, want: u8, a: u32) {
         n.assume(aligned_sliders(&np, np.stm as usize).count_ones() <= a);
     }
     describe(n, &p, half, full, f, t, pr);
-    let keys = if want & WANT_C10 != 0 { Some(crate::sym::keys()) } else { None };
-    let h0 = match &keys {
-        Some(k) => refm::zobrist(&p, k),
-        None => n.u64(),
-    };
+    // the pre-state hash is arbitrary: the assertion is about the change
+    let h0 = n.u64();
     let mut b = board_of(&p, half, full, h0);
     b.play_unchecked(mv(f, t, pr));
     let (nh, nf) = refm::clocks_after_move(&p, f, t, half, full);
@@ -334,15 +405,14 @@ pub fn step_play<N: Nd>(n: &mut N, cube: u8, want: u8, a: u32) {
         let (ck, pin) = refm::checkers_and_pins(&np, np.stm as usize);
         assert!(b.checkers().0 == ck);
         assert!(b.pinned().0 == pin);
-        vcover!(ck.count_ones() == 2, "@c03_step_(pawn|knight|bishop|rook|queen) double check");
+        vcover!(ck.count_ones() == 2, "@c03_step_(pawn|knight|bishop|rook) double check");
         vcover!(pin != 0 && ck != 0, "@c03_step check and pin together");
     }
     if want & WANT_C10 != 0 {
-        let k = keys.as_ref().unwrap();
-        assert!(b.hash() == refm::zobrist(&np, k));
-        let mut noep = np;
-        noep.ep = NONE;
-        assert!(b.hash_without_ep() == refm::zobrist(&noep, k));
+        // hash(successor) = hash(pre-state) XOR the keys of exactly the features that differ
+        let d = sparse_delta(&p, &np);
+        assert!(b.hash() == h0 ^ d);
+        assert!(b.hash_without_ep() == b.hash() ^ if np.ep < 8 { ep_key(np.ep) } else { 0 });
     }
     if want & WANT_CLOSURE != 0 {
         assert!(refm::accepts(&np, nh, nf));
